@@ -237,4 +237,12 @@ theorem T_C17_pure (l : Link) (transform : V3 → V3) :
     (l.update transform).leader = l.leader ∧ (l.update transform).follower = transform l.leader :=
   ⟨rfl, rfl⟩
 
+/-- histories: after any sequence of leader moves and updates the link holds the last leader and the follower
+    that belongs to it — nothing of the earlier moves (no remembered leader, no stale follower) survives -/
+theorem T_C17_history (l : Link) (transform : V3 → V3) (ps : List V3) (p : V3) :
+    (l.run transform (ps ++ [p])).leader = p ∧ (l.run transform (ps ++ [p])).follower = transform p := by
+  induction ps generalizing l with
+  | nil => exact ⟨rfl, rfl⟩
+  | cons q qs ih => exact ih _
+
 end CBV.C17
